@@ -175,6 +175,17 @@ pub fn schedule_jobs_level(level: u8, tf: &dyn Fn(Scenario) -> Scenario) -> Vec<
         add("S2 parblock B=4 w3, S1 parfile w2, S3: -vv", vec![vv(s2(3, 4)), vv(s1(2)), vv(s3("parblock", 2))], 1);
         add("tiny -vv", vec![vv(tiny("parblock"))], 2);
     }
+    // (d) the eager-parking base policy P2: consumers go to sleep on an empty queue and are woken item by item
+    //     (and a wait with a timeout can be made to expire first): the schedules around a sleeping consumer
+    {
+        let scens = if quick { vec![s1(1), s1(2), s2(2, 4), s3("parfile", 2)] } else { vec![s1(1), s1(2), s1(3), s2(1, 4), s2(2, 4), s2(3, 4), s3("parfile", 2), s3("parblock", 2), s6("parfile", 2)] };
+        let mut j: Jobs = vec![];
+        for sc in scens {
+            let sc = Arc::new(tf(sc));
+            j.push((sc.clone(), RunSpec::base(crate::sup::Policy::P2), if deep { 2 } else { 1 }));
+        }
+        extra_parts.push((format!("S1 / S2 / S3 under the eager-parking policy P2 d<={}", if deep { 2 } else { 1 }), j));
+    }
     if quick {
         add("S1 parfile w{1,2,3}", vec![s1(1), s1(2), s1(3)], 1);
         add("S2 parblock B=4 w{1,2,3}", vec![s2(1, 4), s2(2, 4), s2(3, 4)], 1);
